@@ -111,14 +111,54 @@ def possibly_unbound(fn: ast.FunctionDef | ast.AsyncFunctionDef) -> list[tuple[a
                     b |= {(al.asname or al.name.split(".")[0]) for al in x.names}
         return b, u
 
+    # Correlated guards: `if g: v = …` … `if g: use(v)`. Besides bound names the state carries ("falsy", g) - on this path the
+    # name g was last seen falsy - and ("imp", g, v) - if g is truthy then v is bound. Joining a path on which v is bound with one
+    # on which g is falsy gives the implication; a true edge of a test on g cashes it in; any store to g (or unbinding of v) drops it.
+    def _guard(node: ast.AST | None) -> tuple[str, bool] | None:
+        """(name, truthy-on-true-edge) when the test is a bare name, a walrus binding one, or the negation of either."""
+        pos = True
+        while isinstance(node, ast.UnaryOp) and isinstance(node.op, ast.Not):
+            node, pos = node.operand, not pos
+        if isinstance(node, ast.Name):
+            return node.id, pos
+        if isinstance(node, ast.NamedExpr) and isinstance(node.target, ast.Name):
+            return node.target.id, pos
+        return None
+
     def transfer(n: N, st: frozenset, label: str) -> frozenset:
         if label == "exc":
             return st
         b, u = binds(n.node, n.kind, label)
-        return frozenset((set(st) | b) - u)
+        cur = {t for t in st if not (isinstance(t, tuple) and (t[1] in b or t[1] in u or (t[0] == "imp" and t[2] in u)))}
+        cur = (cur | b) - u
+        if n.kind == "test" and label in ("true", "false"):
+            g = _guard(n.node)
+            if g is not None:
+                name, pos = g
+                truthy = (label == "true") == pos
+                if truthy:
+                    if ("falsy", name) in cur and name not in b:
+                        return None  # type: ignore[return-value]  # the name was last seen falsy and has not been stored since: this edge is not taken
+                    cur |= {t[2] for t in cur if isinstance(t, tuple) and t[0] == "imp" and t[1] == name}
+                    cur.discard(("falsy", name))
+                else:
+                    cur.add(("falsy", name))
+        return frozenset(cur)
 
     def join(x: frozenset, y: frozenset) -> frozenset:
-        return x & y
+        out = set(x & y)
+
+        def holds(s_: frozenset, t: tuple) -> bool:
+            # "g truthy => v bound" is true of a path on which v is bound, or g was seen falsy, or the implication is already known
+            return t in s_ or t[2] in s_ or ("falsy", t[1]) in s_
+
+        cands = {t for t in x | y if isinstance(t, tuple) and t[0] == "imp"}
+        for a_, b_ in ((x, y), (y, x)):
+            for t in b_:
+                if isinstance(t, tuple) and t[0] == "falsy":
+                    cands |= {("imp", t[1], v) for v in a_ if isinstance(v, str) and v not in b_}
+        out |= {t for t in cands if holds(x, t) and holds(y, t)}
+        return frozenset(out)
 
     IN = forward(cfg, params, transfer, join, bottom=None)
     out: list[tuple[ast.Name, str]] = []
